@@ -88,6 +88,7 @@ def candidates(case):
                              ('verbose', False), ('forever', False),
                              ('critical', False), ('sd_timeout', 1.0),
                              ('build', 'ctor'), ('late_attrs', None),
+                             ('watch', None),
                              ('ctor_attrs', None)):
             if sched.get(key) != neutral:
                 new = variant()
@@ -105,7 +106,8 @@ def candidates(case):
                 continue
             for key, neutral in (('cleanup', []), ('handler', []),
                                  ('cleanup_outcome', None),
-                                 ('exc_noargs', None),
+                                 ('exc_noargs', None), ('exc_base', None),
+                                 ('handler_absorbs', None),
                                  ('forever', False), ('critical', False),
                                  ('outcome', 'ret'), ('cls', 'abstract')):
                 if m.get(key) != neutral:
